@@ -367,3 +367,139 @@ Definition trunc_times (k : nat) (f : bfile) : bfile :=
 (* a single time block holding only the first j tracers of the first time block *)
 Definition first_tracers (j : nat) (f : bfile) : bfile :=
   {| f_ftype := f_ftype f; f_title := f_title f; f_times := [firstn j (tb0 f)] |}.
+
+(* ---- impl: bpch2 (geoschemfiles/_newbpch.py, as repaired by a06c03f) ------------------------------------ *)
+(* The block-walking reader: no marker check, no time_type; it walks EVERY data block header
+      while offset < size: hdr = data[offset:offset+220].view(dht); key = category + '_' + str(tracerid)
+                           outpos.setdefault(key, OrderedDict())[(tau0, tau1)] = offset, offset+220+skip, dim
+                           offset += skip + 220
+   and presents, per key in order of first appearance, the data of all blocks with that key (a later block with the
+   same (tau0, tau1) replaces the earlier one).  tracerinfo/diaginfo are arrays of rows: FIRST matching row, and a missing
+   row is an IndexError.  Modelled for skips that are non-negative multiples of 4 and blocks whose dims agree with skip
+   (others: Err; only well-formed files are driven through bpch2). *)
+Definition firstnZ (n : Z) (l : list word) : list word :=
+  if lenZ l <=? n then l else firstn (Z.to_nat n) l.
+
+Definition blk2 := (phdr * list word)%type.      (* header, the words data[start:end] *)
+Fixpoint walk2 (fuel : nat) (rest : list word) (rem : Z) : result (list blk2) :=
+  match fuel with
+  | O => Err
+  | S f =>
+    if rem <=? 0 then Ok [] else
+    if rem <? dtype_itemsize dht then Err else           (* a short slice cannot be viewed as dht *)
+    let h := parse_hdr rest in
+    let sk := p_skip h in
+    if (sk <? 0) || negb (sk mod 4 =? 0) then Err else
+    let n := Z.of_nat dht_words + sk / 4 in
+    match walk2 f (skipnZ n rest) (rem - dtype_itemsize dht - sk) with
+    | Ok l => Ok ((h, firstnZ n rest) :: l)
+    | Err => Err
+    end
+  end.
+
+Definition key2 (b : blk2) : list word * Z := (p_cat (fst b), p_tid (fst b)).
+Definition key2_eqb (a b : list word * Z) : bool := zlist_eqb (fst a) (fst b) && (snd a =? snd b).
+(* keys in order of first appearance (dict insertion order) *)
+Definition keys2 (bs : list blk2) : list (list word * Z) :=
+  fold_left (fun acc b => if existsb (key2_eqb (key2 b)) acc then acc else acc ++ [key2 b]) bs [].
+(* inner OrderedDict keyed by (tau0, tau1): assignment to an existing key keeps its position *)
+Fixpoint tau_set (b : blk2) (l : list blk2) : list blk2 :=
+  match l with
+  | [] => [b]
+  | x :: r => if zlist_eqb (p_tau (fst x)) (p_tau (fst b)) then b :: r else x :: tau_set b r
+  end.
+Definition group2 (k : list word * Z) (bs : list blk2) : list blk2 :=
+  fold_left (fun l b => tau_set b l) (filter (fun b => key2_eqb (key2 b) k) bs) [].
+
+(* table rows in file order: first match; None = IndexError *)
+Definition lookup2 (T : tinfo) (D : dinfo) (cat : list word) (tid : Z) : option (tname * Q * tunit) :=
+  match find (fun p => zlist_eqb (fst p) cat) D with
+  | None => None
+  | Some p =>
+    match find (fun e => t_ord e =? tid + snd p) T with
+    | Some e => Some (TName (t_name e), t_scale e, UTab (t_unit e))
+    | None => match find (fun e => t_ord e =? tid) T with
+              | Some e => Some (TName (t_name e), t_scale e, UTab (t_unit e))
+              | None => None
+              end
+    end
+  end.
+
+Record view2 := {
+  s_ftype : list word; s_title : list word;
+  s_vars : list var;                      (* v_resv = [] : bpch2 does not present `reserved` *)
+  s_taus : list (list word);              (* tau0 tau1 of the blocks of the FIRST variable *)
+  s_data : list (list (list word))        (* [variable][time] -> raw data words *)
+}.
+
+Definition hdr_dims_n (h : phdr) : Z := p_nz h * p_ny h * p_nx h.
+(* one variable: attributes from its FIRST block, data of all its blocks viewed with the dims of the LAST one *)
+Definition var2 (T : tinfo) (D : dinfo) (g : list blk2) : option (var * list (list word)) :=
+  match g with
+  | [] => None
+  | (h0, _) :: _ =>
+    let n := hdr_dims_n (fst (last g (h0, []))) in
+    match lookup2 T D (p_cat h0) (p_tid h0) with
+    | None => None
+    | Some l =>
+      if (0 <? p_nx h0) && (0 <? p_ny h0) && (0 <? p_nz h0) && (0 <? n)
+         && forallb (fun b => (lenZ (snd b) =? Z.of_nat dht_words + 2 + n) && (p_skip (fst b) =? 4 * n + 8)
+                              && (hdr_dims_n (fst b) =? n)) g
+      then Some ({| v_cat := p_cat h0; v_name := fst (fst l); v_tid := p_tid h0; v_unit0 := p_unit h0; v_resv := [];
+                    v_nx := p_nx h0; v_ny := p_ny h0; v_nz := p_nz h0; v_start := p_start h0;
+                    v_scale := snd (fst l); v_unit := snd l |},
+                 map (fun b => firstn (Z.to_nat n) (skipn (S dht_words) (snd b))) g)
+      else None
+    end
+  end.
+Fixpoint all_some {A} (l : list (option A)) : option (list A) :=
+  match l with
+  | [] => Some []
+  | Some x :: r => match all_some r with Some xs => Some (x :: xs) | None => None end
+  | None :: _ => None
+  end.
+
+Definition impl_bpch2 (T : tinfo) (D : dinfo) (ws : list word) (size : Z) : result view2 :=
+  if size <? dtype_itemsize ght then Err else
+  match walk2 (S (length ws)) (skipn ght_words ws) (size - dtype_itemsize ght) with
+  | Err => Err
+  | Ok bs =>
+    match bs with
+    | [] => Err                                           (* tmp_hdr undefined *)
+    | _ =>
+      let gs := map (fun k => group2 k bs) (keys2 bs) in
+      match all_some (map (var2 T D) gs) with
+      | None => Err
+      | Some vds =>
+        Ok {| s_ftype := firstn 10 (skipn (woff ght "f1") ws); s_title := firstn 20 (skipn (woff ght "f4") ws);
+              s_vars := map fst vds;
+              s_taus := map (fun b => p_tau (fst b)) (hd [] gs);
+              s_data := map snd vds |}
+      end
+    end
+  end.
+
+(* ---- reader agreement (clause 4) ------------------------------------------------------------------------- *)
+Definition no_resv (v : var) : var :=
+  {| v_cat := v_cat v; v_name := v_name v; v_tid := v_tid v; v_unit0 := v_unit0 v; v_resv := [];
+     v_nx := v_nx v; v_ny := v_ny v; v_nz := v_nz v; v_start := v_start v; v_scale := v_scale v; v_unit := v_unit v |}.
+Definition var_key_eqb (a b : var) : bool := zlist_eqb (v_cat a) (v_cat b) && (v_tid a =? v_tid b).
+(* the data bpch1 presents for variable v: per time block, the entries at the positions of the variables with v's ids *)
+Definition data_of_var (v1 : view) (v : var) : list (list word) :=
+  concat (map (fun row => map snd (filter (fun p => var_key_eqb (fst p) v) (combine (r_vars v1) row))) (r_data v1)).
+(* bpch2 presents the same variables (ids, names, units, scale, dims, offsets), time stamps and data as bpch1 *)
+Definition readers_agree (v1 : view) (v2 : view2) : Prop :=
+  s_ftype v2 = r_ftype v1 /\ s_title v2 = r_title v1
+  /\ s_vars v2 = map no_resv (r_vars v1)
+  /\ s_taus v2 = r_taus v1
+  /\ s_data v2 = map (data_of_var v1) (r_vars v1).
+
+(* every tracer of the file has its category in diaginfo.dat and its number offset+id in tracerinfo.dat *)
+Definition tables_complete (T : tinfo) (D : dinfo) (f : bfile) : bool :=
+  forallb (fun b => match find (fun p => zlist_eqb (fst p) (b_cat b)) D with
+                    | Some p => existsb (fun e => t_ord e =? b_tid b + snd p) T
+                    | None => false
+                    end) (tb0 f).
+(* no two time blocks carry the same time stamp *)
+Definition taus_distinct (f : bfile) : bool :=
+  nodupb zlist_eqb (map (fun tb => b_tau (hd_block tb)) (f_times f)).
